@@ -1,5 +1,6 @@
 import WuffsVerif.Common.Line
 import WuffsVerif.Model.Lzma
+import WuffsVerif.Model.LzmaWuffs
 /-! Line driver for C17 (lib/litonlylzma).  Bytes are lower-case hex, `-` = empty.
   enc lzma|xz <hex>            -> ok <hex>
   dec lzma|xz <hex>            -> ok <hex-data> rest=<n> err=<class>
@@ -11,6 +12,8 @@ import WuffsVerif.Model.Lzma
   encraw <hex> -> ok <hex> ;  decraw <size> <hex> -> ok <hex-data> rest=<n> err=<class>
   uvenc <n> -> <hex> ;  uvdec <hex> -> <x> <ok> rest=<n>
   crc <hex> -> <decimal>
+  wdec lzma|lzma2 <hex> -> ok <hex-data> rest=<n> | fail <status> <hex-data> | unmodelled <why> <hex-data>
+                           (Model/LzmaWuffs.lean: the Wuffs std/lzma decoder, literal path)
 -/
 open WuffsVerif WuffsVerif.Line WuffsVerif.Lzma
 
@@ -95,6 +98,17 @@ def c17Step (l : List String) : String :=
       else if f == "xz" then showDec (decodeXz pre.toArray src)
       else "bad-op"
     | _, _ => "bad-op"
+  | ["wdec", f, h] =>
+    match parseHex h with
+    | none => "bad-op"
+    | some src =>
+      let r := if f == "lzma" then some (WLzma.decodeLzma1 src)
+               else if f == "lzma2" then some (WLzma.decodeLzma2 src) else none
+      match r with
+      | none => "bad-op"
+      | some (.ok out rest) => s!"ok {showHex out} rest={rest.length}"
+      | some (.fail msg out) => s!"fail {msg.replace " " "_"} {showHex out}"
+      | some (.unmodelled why out) => s!"unmodelled {why.replace " " "_"} {showHex out}"
   | ["encraw", h] =>
     match parseHex h with
     | none => "bad-op"
